@@ -47,7 +47,7 @@ def generate(ctx):
     cases = []
     for i in range(ctx.budget(150, 1300)):
         types = ["int64", "double", "int64", "double", "string", "bool"]
-        schema = gen.gen_schema(rng, 3, types=types)
+        schema = gen.spice_names(rng, gen.gen_schema(rng, 3, types=types))
         if not any(t in ("int64", "double") for _, t in schema):
             schema[0] = (schema[0][0], "int64")
         n = rng.randint(0, 6 if ctx.tier == "quick" else 10)
@@ -86,14 +86,16 @@ def generate(ctx):
                 kind = "assign"
             labels, label_kind = corner, "flat_index_equals_index"
         nf = NestedFrame({"x": list(range(n)), "y": [rng.choice(["p", "q"]) for _ in range(n)]}, index=labels)
-        nf["n"] = pd.Series(arr, index=labels, name="n")
+        NEST = "my n" if i % 5 == 3 else "n"        # a nest whose name needs back-ticks in the program
+        nq = NEST if c07.is_ident(NEST) else f"`{NEST}`"
+        nf[NEST] = pd.Series(arr, index=labels, name=NEST)
         other_rows = gen.gen_rows(rng, [("q", "int64")], n, max_len=2)
         nf["other"] = pd.Series(type(arr)(pa.array(other_rows, type=gen.struct_type([("q", "int64")]))), index=labels, name="other")
         rows = fo.rows_rm(inp["ca"])
         numeric = [(nm, t) for nm, (_, t) in zip(names, schema) if t in ("int64", "double")]
         quote = rng.choice(["none", "none", "field"])
         inplace = kind != "multi_inplace_false" and rng.random() < 0.5
-        before_other = fo.snapshot(nf, skip=("n",))
+        before_other = fo.snapshot(nf, skip=(NEST,))
         whole = fo.snapshot(nf)
         flat = flat_table(schema, names, rows)
         lines, plain_lines, targets = [], [], []
@@ -113,17 +115,28 @@ def generate(ctx):
             else:
                 e = c07.gen_cond(rng, [(f, cur_types[f]) for f in cur_fields])
             if kind == "value":
-                text = c07.render(e, c07.nested_ref("n", quote))
+                strs = [f for f in cur_fields if cur_types[f] == "string"]
+                r_ = rng.random()
+                if r_ < 0.15 and strs:
+                    # a constant whose TEXT holds an "=": no assignment
+                    e = (rng.choice(["==", "!="]), ("field", rng.choice(strs)), ("sconst", rng.choice(["a=b", "k = 1"])))
+                text = c07.render(e, c07.nested_ref(NEST, quote))
+                plain = c07.render(e, c07.plain_ref)
+                if 0.15 <= r_ < 0.3:
+                    # a method call with a keyword argument: no assignment either
+                    f_ = rng.choice(num_now)[0]
+                    text = f"{c07.nested_ref(NEST, quote)(f_)}.clip(lower=1)"
+                    plain = f"{c07.plain_ref(f_)}.clip(lower=1)"
                 lines.append(text)
-                plain_lines.append(c07.render(e, c07.plain_ref))
+                plain_lines.append(plain)
                 break
             if kind == "new_nest":
                 tgt_nest, tgt = "m", "z"
             else:
-                tgt_nest = "n"
+                tgt_nest = nq
                 tgt = rng.choice(cur_fields + ["c1", "c2", "new f"]) if li == 0 or rng.random() < 0.6 else rng.choice(["c1", "c2"])
             tq = tgt if c07.is_ident(tgt) else f"`{tgt}`"
-            lines.append(f"{tgt_nest}.{tq} = {c07.render(e, c07.nested_ref('n', quote))}")
+            lines.append(f"{tgt_nest}.{tq} = {c07.render(e, c07.nested_ref(NEST, quote))}")
             plain = c07.render(e, c07.plain_ref)
             plain_lines.append((tgt, plain))
             targets.append((tgt_nest, tgt))
@@ -189,14 +202,14 @@ def generate(ctx):
             impl = res
             if res[0] == "ok":
                 out = res[1]
-                ok_frame = (isinstance(out, NestedFrame) and fo.snapshot(out, skip=("n",)) == before_other and list(out.columns) == list(nf.columns)
-                            and list(out["n"].nest.fields) == fields_now and [repr(x) for x in out.index] == [repr(x) for x in labels])
+                ok_frame = (isinstance(out, NestedFrame) and fo.snapshot(out, skip=(NEST,)) == before_other and list(out.columns) == list(nf.columns)
+                            and list(out[NEST].nest.fields) == fields_now and [repr(x) for x in out.index] == [repr(x) for x in labels])
                 if ok_frame:
                     # the flat view of the result = the oracle's flat table, column by column
                     for f in fields_now:
-                        got = col_values(out["n"].nest.get_flat_series(f))
+                        got = col_values(out[NEST].nest.get_flat_series(f))
                         ok_frame = ok_frame and cq_vals(got) == cq_vals(col_values(flat[f]))
-                impl = ("ok", fo.rows_rm(out["n"].array.chunked_array, fields_now))
+                impl = ("ok", fo.rows_rm(out[NEST].array.chunked_array, fields_now))
             term = (f"(match chk_rows {model} {model} {fo.cq_res_nrows(impl)} with [a; b; c; s] => "
                     f"[a; b && {cq_bool(ok_frame and unchanged)}; c; s] | l => l end)")
             nontrivial = sum(lens) > 1
